@@ -41,6 +41,8 @@ THEOREMS = [
 # type-changing rewrite rules: the optimised plan (and the result) has another column type than
 # the bound plan (witness queries, replayed on every run)
 SQL_WITNESSES = [
+    ("sqltype:values-star-first-row", "select * from (values (1), (2.5))"),
+    ("sqltype:values-star-first-row", "select * from (values (1, true), (3000000000, 7), (NULL, NULL))"),
     ("sqltype:rule:sub-cancel", "select f - f from t"),
     ("sqltype:rule:sub-cancel", "select l - l from t"),
     ("sqltype:rule:add-zero", "select s + 0 from t"),
@@ -164,6 +166,9 @@ def render_sql(req):
         c = re.search(r"\(cols ([^)]*)\)", req)
         if c:
             target = "t(%s)" % ", ".join("c" + x for x in c.group(1).split())
+        if kind == "insm":
+            stmts.append("insert into %s values %s" % (target, ", ".join("(%s)" % ", ".join(val(v) for v in r) for r in rows)))
+            rows = []
         for r in rows:
             stmts.append("insert into %s values (%s)" % (target, ", ".join(val(v) for v in r)))
         if kind == "inssel":
@@ -366,7 +371,15 @@ def run(ck):
             ok_ = norm(b) == norm(rt_) and norm(op) == norm(rt_) and uni == "true"
         if not ok_:
             st["impl_vs_oracle"]["disagree"] += 1
-            if k < len(SQL_WITNESSES):
+            if "(values" in q and rt_ != "none" and (norm(op) != norm(rt_) or uni != "true"):
+                # the executed plan types the VALUES column as the union over all rows; the array
+                # must be of that type (a row cast to another row's literal type is a silent replacement)
+                sig = "sqltype:values-union"
+            elif "(values" in q:
+                # bound != optimized = runtime: the bound `SELECT *` over VALUES refers to the FIRST
+                # row's expressions, so the bound plan carries the first row's literal types
+                sig = "sqltype:values-star-first-row"
+            elif k < len(SQL_WITNESSES):
                 sig = SQL_WITNESSES[k][0]
             elif norm(b) != norm(op) and len(b.split()) == len(op.split()) and has_sub_cancel(q):
                 sig = "sqltype:rule:sub-cancel"
